@@ -68,8 +68,13 @@ class Universe:
             elif d[0] == 'record':
                 dts[n].declare(n + '_mk', *[(n + '_' + f, ref(s)) for f, s in d[1]])
         created = z3.CreateDatatypes(*[dts[n] for n in spec])
+        if not hasattr(self, 'rank'):
+            self.rank = {}
         for (n, d), s in zip(spec.items(), created):
             self.sorts[n] = s
+            # rank: an (uninterpreted) well-founded measure on the terms of the datatype; exists because
+            # datatype values are finite trees.  Axioms (added on demand): rank >= 0, rank(field) < rank(term).
+            self.rank[n] = z3.Function('rank_' + n, s, z3.IntSort())
             self.datatypes[n] = s
             self.decl_spec[n] = d
             if d[0] == 'data':
